@@ -416,16 +416,17 @@ def blockProgram (arch : Arch) (op : BlockOp) : Prog := do
     let sub ← nameAt EmitTbl.apiPoolingOps op.subOp
     if sub == "REDUCE_SUM" && op.ifm.nhcwb16 &&
         ((op.ifm.dtype.bits = 32 && op.ifm.dtype.signed) || (arch.isU65 && arch.ncores = 2)) then .error .vela else
-    match op.padding with
-    | none => .error .type           -- sum(None)
-    | some p =>
-      let g := (sub == "AVERAGE" || sub == "REDUCE_SUM") && p.top + p.left + p.bottom + p.right = 0
-      let g := if op.rescaleKind = 2 then true else if op.rescaleKind = 3 then false else g
-      let c ← genCommon arch op false g 0
-      if g then do
-        let s ← scaleWrite .ofmScale op.oracle.ofmScale
-        .ok (c ++ s)
-      else .ok c
+    let avg := sub == "AVERAGE" || sub == "REDUCE_SUM"
+    -- `sub_op_type in (AVERAGE, REDUCE_SUM) and sum(npu_op.padding) == 0`: `sum(None)` raises only when the first operand holds
+    let g ← match op.padding with
+      | none => if avg then (.error .type : Except Err Bool) else pure false
+      | some p => pure (avg && p.top + p.left + p.bottom + p.right = 0)
+    let g := if op.rescaleKind = 2 then true else if op.rescaleKind = 3 then false else g
+    let c ← genCommon arch op false g 0
+    if g then do
+      let s ← scaleWrite .ofmScale op.oracle.ofmScale
+      .ok (c ++ s)
+    else .ok c
   | .elementwise =>
     let sub ← nameAt EmitTbl.apiElementWiseOps op.subOp
     let g := sub == "ADD" || sub == "SUB" || sub == "MUL" || sub == "LRELU" || sub == "ABS"
